@@ -52,6 +52,10 @@ CLAIMED = {
             "Enumeration of cut points crossed with seeded schedules: (a) per seed (= network behaviour and task schedule) a fixed reference conversation of a real client and a real listener (open, two sessions, an unsettled sender with three batchable sends - one multi-frame - and a plain send, a receiver taking two deliveries, dispositions, detach, close, two ends, close) is run once for every byte offset of either direction (0..=2000 client->listener, 0..=720 listener->client; the conversation is 1935 and 680 bytes long) and each of three cut kinds (EOF, reset, stall then EOF); the cut plan is the run's enumeration case, outside the choice stream, so all runs of a seed share their prefix. Both applications carry on with their scripts whatever each call returns. (b) per seed one run of a real client against a scripted peer that closes, ends, detaches (closing and non-closing) with or without an error after a seeded number of frames while the application has batchable sends, outcomes or a recv pending. Oracles: every call completes within a virtual deadline and nothing panics; data-path calls issued after the failure was certainly processed fail; late attach/begin errors name the stop; connection.close() returns Ok only if both close frames crossed the wire before the cut; the peer's error description is carried by every failing link operation (session/connection stop) or by the first link method that notices (detach), and by session.end()/connection.close(); all engine tasks of both endpoints have terminated at the end.",
             "Trusted: the simulator, refcodec. Exhaustive over offsets x kinds for the reference conversation per seed; the seeds (schedules, fragmentations) are sampled. A call that returns Ok after the cut is accepted when it raced the failure. The error-level check is by name of the error variants (Debug rendering).",
             "cut-point enumeration over a reference conversation + scripted peer-initiated stops; completion, error-content and task-termination oracles", "3 C14"),
+    "C16": ("fault_enumeration",
+            "Enumeration of drop points crossed with seeded schedules: a recv or send future of a real link (client side of a real client/listener pair) is polled k times and then dropped - right after its k-th poll returned Pending, or at the next wake-up before it is polled again. Enumerated variants: per seed (configuration incl. link->session channel capacity 1/2/3/8/2048, credit policy, auto-accept on/off, six messages of 1-4 frames at max-frame-size 512, optional link-level splitting, network behaviour, schedule) one run for every (operation j, k in 1..=12, drop mode); select-loop variants: every recv (two sends out of three) goes through a seeded cancel-and-retry loop with a ticker. Oracles: the deliveries returned by the completed recv calls are exactly the messages sent, in order, byte-equal after re-encoding, nothing afterwards, and the sending peer sees every delivery settled; on the send side every message whose send completed arrives, a cancelled message arrives at most once and intact, arrivals follow the sending order, the wire models (one delivery at a time per link, continuation frames consistent) hold, and every later send completes within a virtual deadline (not starved of credit).",
+            "Trusted: the simulator, refcodec, observation hooks H4/H5 (used only to attribute a failure to a recorded finding). 'Every await point' is reached as 'every k until completion' under the seeded schedules and channel capacities; await points that only pend under conditions the workload does not create are not reached. Three genuine defects are recorded as known findings (DESIGN section 5); any failure outside their observed preconditions is reported.",
+            "drop-point enumeration (future polled k times, then dropped) + exactly-once in-order delivery model and bounded-liveness of later operations", "3 C16"),
     "C06": ("exploration",
             "Seeded search over frames x frame sizes x stream fragmentations: two real Transports are joined by the simulated stream; the sender is given every performative kind with seeded field subsets and transfers (delivery-tags of 0..32 bytes, both values of the more flag) whose payloads are 0 bytes, below one frame, and within +-80 bytes of 1-4 frame body sizes, for max-frame-sizes 512..65536; the stream has seeded write capacity, chunked delivery (down to one byte, borders inside the 8-byte header) and short reads. An independent splitter and codec judge the tap: complete frames only, none larger than the peer's max-frame-size, each decoding to the performative that was sent, continuation payloads concatenating to the original with more set on all but the last frame and the original more flag on the last; the receiving Transport must yield the same frames whatever the fragmentation. One run in five replays the end-to-end pair workload under the frame-size and decodability models.",
             "Trusted: the simulator, refcodec. The expected performative value is obtained by decoding the crate's own encoding with the independent codec (C06 judges framing and splitting, not the value codec).",
